@@ -1,30 +1,41 @@
 """C12 - no input crashes, corrupts memory in or hangs the parsers.
-Lanes (clang ASan+UBSan build, every execution under a wall-clock limit):
+Lanes (clang ASan+UBSan build unless stated, EVERY execution under ONE wall-clock limit, TIME_LIMIT = 5 s):
+  seeds     start-up assertion: every unmutated seed (five configuration grammars, step file, report directory) is ACCEPTED
+            (exit 0) by every tool it is fed to; a seed that is not is a tie error (nothing behind the parse error would run)
   step      robsd-step -R on mutated step files (+ model: parse accepts/rejects, output)
   regress   robsd-regress-log on mutated logs (+ model)
   interp    robsd-config - on mutated templates and -v values (+ model when the value/template has no NUL)
-  config    robsd-config -m <mode> -C <mutated config> -   and   robsd-step -L -m <mode> -C <mutated config>
+  config    robsd-config -m <mode> -C <mutated config> - ; robsd-step -L ; robsd-ls -B ; robsd-hook   (all five modes)
   report    robsd-report on build directories with mutated step.csv / logs / comment / tags
-  ls/hook   robsd-ls, robsd-hook with mutated configs
-  reentry   the witnesses of C12_config_no_abort_refuted and generated configurations whose root directory depends on
-            ${builddir} (finding D18), robsd-config and robsd-step -L (+ model: the trap flag of Conf/ConfDefs.v decides
+  html      robsd-regress-html on generated invocation trees with mutated step.csv / logs
+  reentry   the witnesses of C12_config_no_abort_refuted (corpus/C12) and generated configurations whose root directory depends on
+            ${builddir} (D21), robsd-config and robsd-step -L (+ model: the trap flag of Conf/ConfDefs.v decides
             whether the implementation must die or must exit 0/1)
+  fanout    (plain cc build, RLIMIT_AS 1 GiB) every value refers F times to the next one on up to three levels: the result is
+            F^levels copies of the leaf; through -v, through the configuration alone, through a step file; the result is
+            compared with leaf x F^levels computed here
 Oracle on every execution: no sanitizer report, no signal, no timeout, exit status in the documented set,
 a rejection prints a diagnostic and nothing on standard output."""
-import hashlib, json, glob, os, re, subprocess, random
+import hashlib, json, glob, os, re, resource, shutil, subprocess, random
 from concurrent.futures import ThreadPoolExecutor
 import common, c01, c09, c13
 
 TRANSLATORS = ['t_lexer', 't_step', 't_interp', 't_conf']
 TRUSTED = ['memory safety / undefined behaviour of the C code is OBSERVED with clang ASan+UBSan (-fno-sanitize-recover), not proved; bounded by the generated inputs',
-           'time limit 5 s per execution stands for "terminates promptly"',
+           'time limit 5 s per execution stands for "terminates promptly" (one limit, every lane)',
            'models used for comparison: C01 (step file), C13 (regress log), C09 (interpolation); the configuration parser is compared with its model (Conf/ConfDefs.v: exit, '
-           'stdout, trap flag) in the reentry lane only, elsewhere against the exit-status/diagnostic oracle (C08 compares it with its model on grammar-derived inputs)',
+           'stdout, trap flag) in the reentry lane only, elsewhere against the exit-status/diagnostic oracle (C08 compares it with its model on grammar-derived inputs); '
+           'robsd-step -L, robsd-ls, robsd-hook, robsd-report, robsd-regress-html are judged by the oracle only; inputs above MODEL_MAX bytes are not put to the list-based models',
+           'mutation is blind (byte level, on grammar-derived seeds), not coverage-guided',
            'translator t_conf.py: which body config_default_build_dir has (re-entry guard) decides whether C12_config_no_abort_holds_now checks']
 
 MODEL_MAX = 3000
+TIME_LIMIT = 5
 MODES = ['robsd', 'robsd-cross', 'robsd-ports', 'robsd-regress', 'canvas']
 SAN = re.compile(rb'AddressSanitizer|runtime error:|LeakSanitizer|UndefinedBehaviorSanitizer|SUMMARY: ')
+HOOKMARK = b'HOOK-RAN'
+FANOUT_SIG = 'interpolation-fanout-not-prompt'
+FANOUT_MIN = 10 ** 7       # expansions from which a time-out is the recorded finding and not an unexplained hang
 
 
 def mutate(rng, data, rounds=None):
@@ -53,32 +64,64 @@ def mutate(rng, data, rounds=None):
     return bytes(b)
 
 
-def seeds_config(root, mode):
+def seeds_config(root, mode, hook='echo'):
+    """one ACCEPTED configuration per mode, touching every production of that mode's grammar (checked at start-up by lane_seeds)"""
     d = root
+    hk = 'hook { "%s" "${step-name}" }\n' % hook
     base = {
-        'robsd': 'robsddir "%s"\ndestdir "%s"\nbsd-srcdir "%s"\ncvs-root "example.com:/cvs"\ncvs-user "nobody"\nx11-srcdir "%s"\nbsd-objdir "%s"\nx11-objdir "%s"\nskip { "cvs" "reboot" }\nhook { "echo" "${step-name}" }\nkeep 3\nstat-interval 30\n' % ((d,) * 6),
-        'robsd-cross': 'robsddir "%s"\ncrossdir "%s"\nbsd-srcdir "%s"\ntarget "amd64"\n' % ((d,) * 3),
-        'robsd-ports': 'robsddir "%s"\nchroot "%s"\ncvs-root "example.com:/cvs"\ncvs-user "nobody"\ndistrib-host "example.com"\ndistrib-path "/var/www"\ndistrib-user "nobody"\nports { "devel/knfmt" "mail/mdsort" }\nports-user "nobody"\n' % ((d,) * 2),
-        'robsd-regress': 'robsddir "%s"\nregress-user "nobody"\nregress "bin/csh" root\nregress "lib/libc/locale" quiet no-parallel\nregress "usr.bin/ssh" env { "A=1" "B=${regress-env}" } timeout 1 h targets { "one" "two" }\nregress-env { "GLOBAL=1" "RD=${rdomain}" }\nparallel yes\nregress-timeout 2 m\n' % d,
-        'canvas': 'canvas-name "t"\ncanvas-dir "%s"\nstep "a" command { "sh" "-c" "true" }\nstep "b" command { "echo" "${canvas-dir}" "${ncpu}" } parallel\nskip { "b" }\n' % d,
+        'robsd': 'robsddir "%s"\ndestdir "%s"\nbsd-srcdir "%s"\ncvs-root "example.com:/cvs"\ncvs-user "nobody"\nx11-srcdir "%s"\nbsd-objdir "%s"\nx11-objdir "%s"\nskip { "cvs" "reboot" }\n%skeep 3\nstat-interval 30\n' % ((d,) * 6 + (hk,)),
+        'robsd-cross': 'robsddir "%s"\ncrossdir "%s/${target}"\nbsd-srcdir "%s"\n%skeep-attic no\n' % ((d,) * 3 + (hk,)),
+        'robsd-ports': 'robsddir "%s"\nchroot "%s"\ncvs-root "example.com:/cvs"\ncvs-user "nobody"\ndistrib-host "example.com"\ndistrib-path "/var/www"\ndistrib-user "nobody"\nports { "devel/knfmt" "mail/mdsort" }\nports-user "nobody"\n%s' % ((d,) * 2 + (hk,)),
+        'robsd-regress': 'robsddir "%s"\nregress-user "nobody"\nregress "bin/csh" root\nregress "lib/libc/locale" quiet no-parallel\nregress "usr.bin/ssh" env { "A=1" "B=${regress-env}" } targets { "one" "two" } obj { "usr.bin/make" } packages { "exabgp" }\nregress-env { "GLOBAL=1" "RD=${rdomain}" }\nparallel yes\nregress-timeout 2 m\n%s' % (d, hk),
+        'canvas': 'canvas-name "t"\ncanvas-dir "%s"\nstep "a" command { "sh" "-c" "true" }\nstep "b" command { "echo" "${canvas-dir}" "${ncpu}" } parallel\nskip { "b" }\n%s' % (d, hk),
     }
     return base[mode].encode()
 
 
-def execp(argv, stdin=b'', timeout=5, env=None, cwd=None):
+# every kind of row once: the static defaults and computed defaults config_find can be asked for (Conf/ConfAbort.v trap_free)
+ROW_TEMPLATES = {'canvas': b'${canvas-name} ${canvas-dir} ${keep-dir} ${robsddir}\n',
+                 'robsd-regress': b'${regress} ${regress-obj} ${regress-packages} ${parallel} ${regress-x-parallel} ${regress-x-targets} ${regress-x-env} ${regress-timeout} '
+                                  b'${regress-usr.bin/ssh-env} ${regress-usr.bin/ssh-targets} ${regress-bin/csh-root} ${regress-lib/libc/locale-quiet} ${rdomain} ${rdomain}\n',
+                 'robsd': b'${destdir} ${kernel} ${reboot} ${bsd-diff} ${bsd-reldir} ${x11-reldir} ${cvs-user}\n',
+                 'robsd-cross': b'${crossdir} ${bsd-srcdir} ${inet} ${inet6} ${machine}\n',
+                 'robsd-ports': b'${chroot} ${ports} ${ports-dir} ${ports-user} ${ports-diff} ${distrib-host}\n'}
+GOOD_STEPS = b'step,name,exit,duration,delta,log,user,time,skip\n1,env,0,1,0,001-env.log,root,1700000000,0\n2,cvs,0,5,0,002-cvs.log,root,1700000001,1\n3,kernel,1,65,0,003-kernel.log,root,1700000002,0\n'
+GOOD_STEPFILE = b'step,name,exit,duration,delta,log,user,time,skip\n1,one,0,5,0,,root,1700000000,0\n2,two,-1,-1,0,002-two.log,root,1700000001,0\n3,x/y,124,9223372036854775807,-5,003-x-y.log,root,1700000002,1\n'
+
+
+def build_driver(ctx, name, withz=False):
+    """C12 uses the extractions of four other areas (st, rl, ip, cf): the libraries an extraction imports are compiled first"""
+    import conf_common
+    return conf_common.build_driver(ctx, name, withz)
+
+
+def limit_as(nbytes):
+    def f():
+        resource.setrlimit(resource.RLIMIT_AS, (nbytes, nbytes))
+    return f
+
+
+def execp(argv, stdin=b'', env=None, cwd=None, mem=None):
+    """one execution under THE time limit; -998 = did not terminate"""
     try:
-        r = subprocess.run(argv, input=stdin, stdout=subprocess.PIPE, stderr=subprocess.PIPE, timeout=timeout, env=env, cwd=cwd)
+        r = subprocess.run(argv, input=stdin, stdout=subprocess.PIPE, stderr=subprocess.PIPE, timeout=TIME_LIMIT, env=env, cwd=cwd,
+                           preexec_fn=limit_as(mem) if mem else None)
         return r.returncode, r.stdout, r.stderr
     except subprocess.TimeoutExpired:
         return -998, b'', b'TIMEOUT'
 
 
-def judge(res, lane, case, rc, out, err, ok_codes=(0, 1), stdout_on_reject_ok=False):
+def judge(res, lane, case, rc, out, err, ok_codes=(0, 1)):
+    """the oracle.  No exemption from the "no partial output" clause: robsd-step -L tests the offset BEFORE its print loop
+    (steps_list: `if (offset - 1 >= VECTOR_LENGTH(steps)) ... goto out;` precedes the printf loop) and robsd-hook prints nothing
+    itself without -V (what appears on its standard output is written by the hook command AFTER a successful execvp, i.e. after
+    the helper accepted its input; the lane uses a hook command that always exits 0, so output together with a non-zero status
+    is the helper's)."""
     res.evaluations += 1
     res.count('%s rc=%s' % (lane, rc))
     sig = None
-    if rc == -998:
-        sig, what = 'hang', '%s did not terminate within the time limit' % lane
+    if rc in (-998, -999):
+        sig, what = 'hang', '%s did not terminate within %d s' % (lane, TIME_LIMIT)
     elif SAN.search(err):
         sig, what = 'sanitizer-report', '%s: %s' % (lane, err[-400:].decode('latin1'))
     elif rc < 0 or rc > 128:
@@ -87,21 +130,112 @@ def judge(res, lane, case, rc, out, err, ok_codes=(0, 1), stdout_on_reject_ok=Fa
         sig, what = 'undocumented-exit-status', '%s exited %s' % (lane, rc)
     elif rc != 0 and not err.strip():
         sig, what = 'rejection-without-diagnostic', '%s exited %s with empty stderr' % (lane, rc)
-    elif rc != 0 and out and not stdout_on_reject_ok:
+    elif rc != 0 and out:
         sig, what = 'partial-output-on-rejection', '%s exited %s with %d bytes on stdout' % (lane, rc, len(out))
     if sig:
         res.oracle_failures.append({'case': case, 'signature': sig, 'what': what, 'lane': lane})
     return sig is None
 
 
+def load_corpus():
+    """corpus/C12/*.json, each case names its lane.  A missing or empty directory is an error."""
+    d = os.path.join(common.VERIF, 'corpus', 'C12')
+    if not os.path.isdir(d):
+        raise common.BuildFailure('corpus directory %s is missing' % d)
+    cs = []
+    for p in sorted(glob.glob(os.path.join(d, '*.json'))):
+        c = json.load(open(p))
+        c['corpus'] = os.path.basename(p)
+        cs.append(c)
+    if not cs:
+        raise common.BuildFailure('corpus directory %s holds no case' % d)
+    return cs
+
+
+def make_hookprobe(work):
+    p = os.path.join(work, 'hookprobe')
+    open(p, 'w').write('#!/bin/sh\necho "%s $*"\nexit 0\n' % HOOKMARK.decode())
+    os.chmod(p, 0o755)
+    return p
+
+
+def config_world(work, name='root'):
+    root = os.path.join(work, name)
+    os.makedirs(os.path.join(root, '2024-01-01.1', 'tmp'), exist_ok=True)
+    open(os.path.join(root, '.running'), 'w').write(os.path.join(root, '2024-01-01.1') + '\n')
+    return root
+
+
+def run_tool(impl, which, mode, conf, tmpl, env, idx=0):
+    if which == 'config':
+        return execp([os.path.join(impl, 'robsd-config'), '-m', mode, '-C', conf, '-v', 'x=${robsddir}', '-v', 'target=amd64', '-v', 'step-name=a', '-'], stdin=tmpl, env=env)
+    if which == 'list':
+        return execp([os.path.join(impl, 'robsd-step'), '-L', '-m', mode, '-C', conf, '-o', random.Random(idx).choice(['1', '2', '5'])], env=env)
+    if which == 'ls':
+        return execp([os.path.join(impl, 'robsd-ls'), '-m', mode, '-C', conf, '-B'], env=env)
+    return execp([os.path.join(impl, 'robsd-hook'), '-m', mode, '-C', conf, '-v', 'step-name=a', '-v', 'step-exit=0'], env=env)
+
+
+def report_dir(root, mode, conf_bytes, steps, log, comment, tags):
+    bd = os.path.join(root, '2024-01-02.1')
+    os.makedirs(os.path.join(bd, 'tmp'))
+    open(os.path.join(root, '.running'), 'w').write(bd + '\n')
+    conf = os.path.join(root, 'conf')
+    open(conf, 'wb').write(conf_bytes)
+    open(os.path.join(bd, 'step.csv'), 'wb').write(steps)
+    for nme in ('001-env.log', '002-cvs.log', '003-kernel.log'):
+        open(os.path.join(bd, nme), 'wb').write(log)
+    open(os.path.join(bd, 'comment'), 'wb').write(comment)
+    open(os.path.join(bd, 'tags'), 'wb').write(tags)
+    return conf, bd
+
+
+def lane_seeds(ctx, impl, work, res, rng, n):
+    """every unmutated seed must be accepted by every tool it is fed to, otherwise the mutations of it only exercise the error path"""
+    root = config_world(work, 'sroot')
+    probe = make_hookprobe(root)
+    env = dict(os.environ, EXECDIR=impl)
+    for mode in MODES:
+        conf = os.path.join(work, 'seed-%s.conf' % mode)
+        open(conf, 'wb').write(seeds_config(root, mode, hook=probe))
+        for which in ('config', 'list', 'ls', 'hook'):
+            rc, out, err = run_tool(impl, which, mode, conf, ROW_TEMPLATES[mode] + b'${robsddir} ${keep} ${hook} ${skip}\n${builddir} ${ncpu} ${arch} ${trace}\n', env)
+            res.evaluations += 1
+            ok = rc == 0 and not SAN.search(err) and (which != 'hook' or out.startswith(HOOKMARK)) and (which not in ('config', 'list') or out)
+            res.count('seed %s %s: %s' % (which, mode, 'accepted' if ok else 'NOT accepted (exit %s)' % rc))
+            if not ok:
+                res.tie_errors.append('the unmutated %s seed is not accepted by robsd-%s: exit %s, %r' % (mode, which, rc, err[-200:]))
+        rroot = os.path.join(work, 'seedrep-%s' % mode)
+        os.makedirs(rroot)
+        conf, bd = report_dir(rroot, mode, seeds_config(rroot, mode), GOOD_STEPS, b'+ make\ncc -c x.c\n==== t ====\nFAILED\n*** Error 1\n', b'a comment\n', b'tag1 tag2\n')
+        rc, out, err = execp([os.path.join(impl, 'robsd-report'), '-m', mode, '-C', conf, bd], env=env)
+        res.evaluations += 1
+        res.count('seed report %s: %s' % (mode, 'accepted' if rc == 0 and out else 'NOT accepted (exit %s)' % rc))
+        if rc != 0 or not out or SAN.search(err):
+            res.tie_errors.append('the unmutated report directory is not accepted by robsd-report -m %s: exit %s, %r' % (mode, rc, err[-200:]))
+        shutil.rmtree(rroot, ignore_errors=True)
+    p = os.path.join(work, 'seed.csv')
+    open(p, 'wb').write(GOOD_STEPFILE)
+    rc, out, err = execp([os.path.join(impl, 'robsd-step'), '-R', '-f', p, '-i', '1'], stdin=b'${step} ${name} ${exit}\n')
+    res.evaluations += 1
+    if rc != 0 or out != b'1 one 0\n':
+        res.tie_errors.append('the unmutated step file is not accepted by robsd-step -R: exit %s, %r %r' % (rc, out[:80], err[-200:]))
+
+
 def lane_step(ctx, impl, work, res, rng, n):
-    drv = ctx.build_driver('st', withz=True)
-    good = b'step,name,exit,duration,delta,log,user,time,skip\n1,one,0,5,0,,root,1700000000,0\n2,two,-1,-1,0,002-two.log,root,1700000001,0\n3,x/y,124,9223372036854775807,-5,003-x-y.log,root,1700000002,1\n'
-    cases = []
+    drv = build_driver(ctx, 'st', withz=True)
+    good = GOOD_STEPFILE
+    cases = [(bytes.fromhex(c['file']), c['sel'], bytes.fromhex(c['template'])) for c in load_corpus() if c['lane'] == 'step']
     for i in range(n):
         data = mutate(rng, good) if rng.random() < 0.8 else bytes(rng.randrange(256) for _ in range(rng.choice([0, 1, 7, 100, 3000])))
         sel = rng.choice([['-i', '1'], ['-i', '-1'], ['-i', '3'], ['-n', 'two'], ['-i', '99']])
         tmpl = rng.choice([b'${step} ${name} ${exit}\n', b'${log}${user}\n', mutate(rng, b'${name}:${duration}\n', 2)])
+        if rng.random() < 0.05:
+            # a long field referenced several times: the result outgrows every buffer sized after the template (seeded/C12-2)
+            k = rng.choice([600, 700, 1500, 5000])
+            data = good.replace(b'1,one,', b'1,' + b'a' * k + b',')
+            sel = ['-i', '1']
+            tmpl = b' '.join([b'${name}'] * rng.choice([2, 3, 4, 9])) + rng.choice([b'\n', b'\n${nope}\n', b'\n${log}\n'])
         cases.append((data, sel, tmpl))
 
     def one(ic):
@@ -116,7 +250,7 @@ def lane_step(ctx, impl, work, res, rng, n):
     qs = []
     for (data, sel, tmpl) in cases:
         how = 'i' if sel[0] == '-i' else 'n'
-        if len(data) + len(tmpl) <= MODEL_MAX:
+        if len(data) + len(tmpl) <= MODEL_MAX and max(len(x) for x in re.split(rb'[,\n]', data)) <= 300:
             qs.append(' '.join(['read', common.hexs(data), how, sel[1].encode().hex(), common.hexs(tmpl)]))
         else:
             qs.append('skip')      # the list-based model is quadratic in the length of one value: large inputs are judged by the oracle only
@@ -126,29 +260,68 @@ def lane_step(ctx, impl, work, res, rng, n):
         if judge(res, 'robsd-step -R', case, rc, out, err) and b'\0' not in tmpl and a != 'BAD':
             if a != '%d %s' % (rc, common.hexs(out)):
                 res.disagreements.append({'case': case, 'model': a[:200], 'impl': ('%d %s' % (rc, common.hexs(out)))[:200]})
+        if a == 'BAD':
+            res.count('robsd-step -R: above MODEL_MAX or a field above 300 bytes, oracle only')
+            m = re.match(rb'step,name,exit,duration,delta,log,user,time,skip\n1,(a+),', data)
+            if m and sel == ['-i', '1'] and re.fullmatch(rb'\$\{name\}( \$\{name\})*\n', tmpl):
+                # the long-value cases are beyond the list model: their result is computed here (the name, as often as referenced)
+                want = tmpl.replace(b'${name}', m.group(1))
+                if rc != 0 or out != want:
+                    res.oracle_failures.append({'case': case, 'signature': 'step-long-value-result', 'lane': 'step',
+                                                'what': 'a %d-byte name referenced %d times: exit %s, %d bytes, expected exit 0, %d bytes'
+                                                        % (len(m.group(1)), tmpl.count(b'${name}'), rc, len(out), len(want))})
         if rc == 0:
             res.nontrivial.add(hashlib.sha1(data + tmpl).hexdigest())
 
 
 def lane_regress(ctx, impl, work, res, rng, n):
-    drv = ctx.build_driver('rl')
+    drv = build_driver(ctx, 'rl')
     cases = []
     for i in range(n):
         log = c13.gen_log(rng)
         data = mutate(rng, log) if rng.random() < 0.8 else bytes(rng.randrange(256) for _ in range(rng.choice([0, 5, 200, 70000])))
         cases.append({'flags': rng.randint(1, 15), 'doprint': rng.random() < 0.8, 'files': [data.hex()]})
+    # OUTSIDE the property: the log PATH cannot be read (missing, a directory).  The property quantifies over byte strings
+    # supplied as the log; a path that yields no bytes supplies none.  Only crash/hang freedom is judged there (robsd-regress-log
+    # exits 2 without a diagnostic: buffer_read fails silently).
+    unreadable = [{'flags': 1, 'doprint': True, 'files': [], 'path': p} for p in (os.path.join(work, 'nosuchlog'), work)]
+
+    def one(ic):
+        i, c = ic
+        if 'path' in c:
+            paths = [c['path']]
+        else:
+            d = os.path.join(work, 'rl%d' % i)
+            os.makedirs(d, exist_ok=True)
+            paths = []
+            for j, f in enumerate(c['files']):
+                p = os.path.join(d, 'log%d' % j)
+                open(p, 'wb').write(bytes.fromhex(f))
+                paths.append(p)
+        r = execp([os.path.join(impl, 'robsd-regress-log'), c13.flag_args(c['flags'], c['doprint'])] + paths)
+        if 'path' not in c:
+            shutil.rmtree(d, ignore_errors=True)
+        return r
     with ThreadPoolExecutor(16) as ex:
-        obs = list(ex.map(lambda ic: c13.run_impl(impl, work, ic[0], ic[1]), enumerate(cases)))
+        obs = list(ex.map(one, enumerate(cases + unreadable)))
+    for c, (rc, out, err) in zip(unreadable, obs[len(cases):]):
+        res.count('outside: regress log path not readable (exit %s, %s diagnostic)' % (rc, 'with' if err.strip() else 'without'))
+        if rc in (-998, -999) or SAN.search(err) or rc < 0 or rc > 128:
+            res.oracle_failures.append({'case': dict(c, lane='regress'), 'signature': 'hang' if rc in (-998, -999) else 'abnormal-termination',
+                                        'what': 'robsd-regress-log on an unreadable path: status %s' % rc, 'lane': 'regress'})
+    obs = obs[:len(cases)]
     qs = [(' '.join(['main'] + c13.flag_toks(c['flags']) + ['1' if c['doprint'] else '0', '1'] + c13.file_toks(c))
            if len(c['files'][0]) <= 2 * MODEL_MAX else 'skip') for c in cases]
     ans = common.run_driver(drv, qs)
     for c, (rc, out, err), a in zip(cases, obs, ans):
         c2 = dict(c, lane='regress')
-        # exit 1 = "nothing extracted" is not a rejection: no diagnostic expected
+        # exit 1 = "nothing extracted" is not a rejection: no diagnostic expected.  Exit 2 (fatal) cannot happen for a readable file.
         res.evaluations += 1
         res.count('robsd-regress-log rc=%s' % rc)
-        if rc == -999 or SAN.search(err) or rc < 0 or rc > 2 or (rc != 0 and out):
-            res.oracle_failures.append({'case': c2, 'signature': 'hang' if rc == -999 else ('sanitizer-report' if SAN.search(err) else 'abnormal-termination'),
+        if rc in (-998, -999) or SAN.search(err) or rc < 0 or rc > 1 or (rc != 0 and out):
+            sig = ('hang' if rc in (-998, -999) else 'sanitizer-report' if SAN.search(err) else 'abnormal-termination' if (rc < 0 or rc > 128)
+                   else 'undocumented-exit-status' if rc > 1 else 'partial-output-on-rejection')
+            res.oracle_failures.append({'case': c2, 'signature': sig,
                                         'what': 'robsd-regress-log status %s: %s' % (rc, err[-300:].decode('latin1')), 'lane': 'regress'})
         elif a != 'BAD' and a != '%d %s' % (rc, common.hexs(out)):
             res.disagreements.append({'case': c2, 'model': a[:200], 'impl': ('%d %s' % (rc, common.hexs(out)))[:200]})
@@ -157,61 +330,70 @@ def lane_regress(ctx, impl, work, res, rng, n):
 
 
 def lane_config(ctx, impl, work, res, rng, n):
-    root = os.path.join(work, 'root')
-    os.makedirs(root, exist_ok=True)
-    open(os.path.join(root, '.running'), 'w').write(os.path.join(root, '2024-01-01.1') + '\n')
+    root = config_world(work)
+    probe = make_hookprobe(root)          # inside the root, so that stored cases name it as @R@/hookprobe
     env = dict(os.environ, EXECDIR=impl)
     cases = []
+    for c in load_corpus():
+        if c['lane'] == 'config':
+            cases.append((c['mode'], bytes.fromhex(c['config']).replace(b'@R@', root.encode()), bytes.fromhex(c['template']), c['which']))
     for i in range(n):
         mode = rng.choice(MODES)
-        seed = seeds_config(root, mode)
-        data = mutate(rng, seed) if rng.random() < 0.85 else bytes(rng.randrange(256) for _ in range(rng.choice([0, 3, 50, 4000])))
-        tmpl = rng.choice([b'${robsddir} ${keep} ${hook} ${skip}\n', b'${builddir} ${ncpu} ${arch} ${trace}\n', b'${regress} ${regress-env} ${rdomain} ${rdomain}\n',
-                           mutate(rng, b'${tmp-dir}/${exec-dir}\n', 2),
-                           # every kind of row once: the static defaults and computed defaults config_find can be asked for (Conf/ConfAbort.v trap_free)
-                           {'canvas': b'${step} ${canvas-name} ${canvas-dir} ${keep-dir}\n', 'robsd-regress': b'${regress-obj} ${regress-packages} ${parallel} ${regress-x-parallel} ${regress-x-targets} ${regress-x-env} ${regress-timeout}\n',
-                            'robsd': b'${destdir} ${kernel} ${reboot} ${bsd-diff} ${bsd-reldir} ${x11-reldir} ${cvs-user}\n',
-                            'robsd-cross': b'${crossdir} ${bsd-srcdir} ${inet} ${inet6} ${machine}\n',
-                            'robsd-ports': b'${chroot} ${ports} ${ports-dir} ${ports-user} ${ports-diff} ${distrib-host}\n'}[mode]])
+        seed = seeds_config(root, mode, hook=probe)
+        data = mutate(rng, seed, rng.choice([0, 0, 1, 1, 1, 2, 3, 6])) if rng.random() < 0.85 else bytes(rng.randrange(256) for _ in range(rng.choice([0, 3, 50, 4000])))
+        tmpl = rng.choice([b'${robsddir} ${keep} ${hook} ${skip}\n', b'${builddir} ${ncpu} ${arch} ${trace}\n',
+                           b'${regress} ${regress-env} ${rdomain} ${rdomain}\n' if mode == 'robsd-regress' else b'${keep-dir} ${tmp-dir}\n',
+                           mutate(rng, b'${tmp-dir}/${exec-dir}\n', 2), ROW_TEMPLATES[mode], ROW_TEMPLATES[mode],
+                           b'${step}\n'])        # step is the one row without a value (INVALID): always 'unknown variable'
         which = rng.choice(['config', 'config', 'list', 'ls', 'hook'])
-        if rng.random() < 0.2:
+        k = rng.random()
+        if k < 0.2:
             # every line of one keyword dropped (a required variable missing, a list variable never created), then every kind of
             # row asked for: the static-default and computed-default branches of config_find (Conf/ConfAbort.v sites 1-3, 6)
             kws = sorted({l.split()[0] for l in seed.split(b'\n') if l.split()})
             kw = rng.choice(kws)
             data = b'\n'.join(l for l in seed.split(b'\n') if not l.startswith(kw + b' ')) + b'\n'
-            tmpl = {'canvas': b'${step} ${canvas-name} ${canvas-dir} ${keep-dir}\n', 'robsd-regress': b'${regress} ${regress-obj} ${regress-packages} ${parallel} ${regress-x-parallel}\n',
+            tmpl = {'canvas': b'${canvas-name} ${canvas-dir} ${keep-dir}\n${step}\n', 'robsd-regress': b'${regress} ${regress-obj} ${regress-packages} ${parallel} ${regress-x-parallel}\n',
                     'robsd': b'${destdir} ${kernel} ${bsd-reldir}\n', 'robsd-cross': b'${crossdir} ${bsd-srcdir}\n', 'robsd-ports': b'${chroot} ${ports} ${ports-user}\n'}[mode]
             which = rng.choice(['config', 'config', 'config', 'list'])
+        elif k < 0.26:
+            # a long string value referenced several times (seeded/C12-2): the result outgrows a buffer sized after the template
+            v = b'u' * rng.choice([700, 1500, 4000])
+            kw = {'canvas': b'canvas-name', 'robsd-cross': b'crossdir'}.get(mode, b'cvs-root')
+            data = b''.join(l + b'\n' for l in seed.split(b'\n') if l and not l.startswith(kw + b' ')) + kw + b' "' + v + b'"\n'
+            tmpl = b'\n'.join([b'A=${' + kw + b'}'] * rng.choice([2, 3, 5])) + rng.choice([b'\n', b'\n${nope}\n'])
+            which = 'config'
         cases.append((mode, data, tmpl, which))
 
     def one(ic):
         i, (mode, data, tmpl, which) = ic
         p = os.path.join(work, 'c%d.conf' % i)
         open(p, 'wb').write(data)
-        if which == 'config':
-            r = execp([os.path.join(impl, 'robsd-config'), '-m', mode, '-C', p, '-v', 'x=${robsddir}', '-'], stdin=tmpl, env=env)
-        elif which == 'list':
-            r = execp([os.path.join(impl, 'robsd-step'), '-L', '-m', mode, '-C', p, '-o', random.Random(i).choice(['1', '2', '5'])], env=env)
-        elif which == 'ls':
-            r = execp([os.path.join(impl, 'robsd-ls'), '-m', mode, '-C', p, '-B'], env=env)
-        else:
-            r = execp([os.path.join(impl, 'robsd-hook'), '-m', mode, '-C', p, '-v', 'step-name=a', '-v', 'step-exit=0'], env=env)
+        r = run_tool(impl, which, mode, p, tmpl, env, i)
         os.unlink(p)
         return r
     with ThreadPoolExecutor(16) as ex:
         obs = list(ex.map(one, enumerate(cases)))
+    rates = {}
     for (mode, data, tmpl, which), (rc, out, err) in zip(cases, obs):
-        case = {'lane': which, 'mode': mode, 'config': data.hex(), 'template': tmpl.hex()}
-        # robsd-step -L prints the schedule first and may then complain "offset too large": output before a rejection is specified there
-        judge(res, 'robsd-%s %s' % (which, mode), case, rc, out, err, stdout_on_reject_ok=(which in ('list', 'hook')))
+        case = {'lane': which, 'mode': mode, 'config': data.replace(root.encode(), b'@R@').hex(), 'template': tmpl.hex()}
+        judge(res, 'robsd-%s %s' % (which, mode), case, rc, out, err)
+        r = rates.setdefault('%s %s' % (which, mode), [0, 0])
+        r[1] += 1
         if rc == 0:
+            r[0] += 1
             res.nontrivial.add(hashlib.sha1(data + tmpl + which.encode()).hexdigest())
+    # acceptance rates per tool and mode: what share of the executions gets behind the parse error at all
+    res.extra.setdefault('acceptance_rates', {}).update({k: '%d/%d' % (a, t) for k, (a, t) in sorted(rates.items())})
+    for k, (a, t) in sorted(rates.items()):
+        res.count('accepted by robsd-%s: %d of %d' % (k, a, t))
+        if t >= 25 and a == 0:
+            res.tie_errors.append('config lane: none of %d executions of robsd-%s was accepted - nothing behind the parse error ran' % (t, k))
 
 
 def lane_interp(ctx, impl, work, res, rng, n):
     limit = c09.source_limit()
-    cases = []
+    cases = [dict(c) for c in c09.load_corpus() if 'ignore' not in c]
     for _ in range(n):
         c = c09.gen_case(rng)
         c['template'] = mutate(rng, bytes.fromhex(c['template']), rng.choice([0, 1, 2])).hex()
@@ -222,54 +404,128 @@ def lane_interp(ctx, impl, work, res, rng, n):
     conf = os.path.join(work, 'i.conf')
     open(conf, 'w').write('canvas-name "t"\ncanvas-dir "%s"\nstep "s" command { "true" }\n' % root)
     with ThreadPoolExecutor(16) as ex:
-        obs = list(ex.map(lambda c: c09.run_cmd(impl, conf, c), cases))
-    drv = ctx.build_driver('ip')
+        obs = list(ex.map(lambda c: c09.run_cmd(impl, conf, c, timeout=TIME_LIMIT), cases))
+    drv = build_driver(ctx, 'ip')
     ans = common.run_driver(drv, [(' '.join(['cmd', str(limit)] + c09.env_toks(c) + [c['template'] or '-'])
-                                   if len(c['template']) <= 2 * MODEL_MAX else 'skip') for c in cases])
+                                   if len(c['template']) <= 2 * MODEL_MAX and sum(len(v) for _, v in c['env']) <= 4 * MODEL_MAX else 'skip') for c in cases])
     for c, (rc, out, err), a in zip(cases, obs, ans):
         case = dict(c, lane='interp')
+        if a.startswith('EXN'):
+            # the extracted list-based model ran out of stack on this input (a mutation multiplied a fan-out): oracle only
+            res.count('robsd-config -: beyond the extracted model (%s), oracle only' % a[4:40])
+            judge(res, 'robsd-config -', case, rc, out, err)
+            continue
         if judge(res, 'robsd-config -', case, rc, out, err) and b'\0' not in bytes.fromhex(c['template']) and a != 'BAD':
             m = a.split(' ')
             if m[0] != str(rc) or m[1] != common.hexs(out):
                 res.disagreements.append({'case': case, 'model': a[:200], 'impl': ('%d %s' % (rc, common.hexs(out)))[:200]})
+        if rc == 0 and len(out) > 2048:
+            res.count('robsd-config -: result above 2 KiB')
+
+
+REPORT_LOGS = (b'001-env.log', b'002-cvs.log', b'003-kernel.log')
+MISSING_LOG_SIG = 'report-regress-unreadable-log-silent'
+
+
+def names_missing_log(steps):
+    """does some row of this (possibly mutated) step file name a log that the fixture directory does not hold?"""
+    for line in steps.split(b'\n')[1:]:
+        f = line.split(b',')
+        if len(f) >= 6 and f[5] and f[5] not in REPORT_LOGS:
+            return True
+    return False
 
 
 def lane_report(ctx, impl, work, res, rng, n):
     env = dict(os.environ, EXECDIR=impl)
-    good_steps = b'step,name,exit,duration,delta,log,user,time,skip\n1,env,0,1,0,001-env.log,root,1700000000,0\n2,cvs,0,5,0,002-cvs.log,root,1700000001,1\n3,kernel,1,65,0,003-kernel.log,root,1700000002,0\n'
-    cases = []
+    cases = [(c['mode'], bytes.fromhex(c['steps']), bytes.fromhex(c['log']), bytes.fromhex(c['comment']), bytes.fromhex(c['tags']))
+             for c in load_corpus() if c['lane'] == 'report']
     for i in range(n):
         mode = rng.choice(MODES)
-        cases.append((mode, mutate(rng, good_steps), mutate(rng, b'+ make\ncc -c x.c\n==== t ====\nFAILED\n*** Error 1\n', rng.choice([0, 1, 3])),
+        cases.append((mode, mutate(rng, GOOD_STEPS), mutate(rng, b'+ make\ncc -c x.c\n==== t ====\nFAILED\n*** Error 1\n', rng.choice([0, 1, 3])),
                       mutate(rng, b'a comment\n', rng.choice([0, 1])), mutate(rng, b'tag1 tag2\n', rng.choice([0, 1]))))
 
     def one(ic):
         i, (mode, steps, log, comment, tags) = ic
         root = os.path.join(work, 'r%d' % i)
-        bd = os.path.join(root, '2024-01-02.1')
-        os.makedirs(os.path.join(bd, 'tmp'))
-        open(os.path.join(root, '.running'), 'w').write(bd + '\n')
-        conf = os.path.join(root, 'conf')
-        open(conf, 'wb').write(seeds_config(root, mode))
-        open(os.path.join(bd, 'step.csv'), 'wb').write(steps)
-        for nme in ('001-env.log', '002-cvs.log', '003-kernel.log'):
-            open(os.path.join(bd, nme), 'wb').write(log)
-        open(os.path.join(bd, 'comment'), 'wb').write(comment)
-        open(os.path.join(bd, 'tags'), 'wb').write(tags)
+        os.makedirs(root)
+        conf, bd = report_dir(root, mode, seeds_config(root, mode), steps, log, comment, tags)
         r = execp([os.path.join(impl, 'robsd-report'), '-m', mode, '-C', conf, bd], env=env)
-        import shutil
         shutil.rmtree(root, ignore_errors=True)
         return r
     with ThreadPoolExecutor(16) as ex:
         obs = list(ex.map(one, enumerate(cases)))
+    rates = {}
     for (mode, steps, log, comment, tags), (rc, out, err) in zip(cases, obs):
         case = {'lane': 'report', 'mode': mode, 'steps': steps.hex(), 'log': log.hex(), 'comment': comment.hex(), 'tags': tags.hex()}
+        if mode == 'robsd-regress' and rc == 1 and not err.strip() and not out and names_missing_log(steps):
+            # regress_report_step_log: regress_log_parse() < 0 (the log named by a row cannot be read) returns STEP_LOG_ERROR without
+            # a message, where report_step_log of the other modes says warn("%s", log_path) (findings/C12_report_regress_missing_log.md)
+            res.evaluations += 1
+            res.count('robsd-report robsd-regress rc=1 silent, a row names a log that does not exist')
+            res.oracle_failures.append({'case': case, 'signature': MISSING_LOG_SIG, 'lane': 'report',
+                                        'what': 'robsd-report -m robsd-regress exits 1 with empty stderr: a row of step.csv names a log that cannot be read'})
+            r = rates.setdefault('report %s' % mode, [0, 0])
+            r[1] += 1
+            continue
         judge(res, 'robsd-report %s' % mode, case, rc, out, err)
+        r = rates.setdefault('report %s' % mode, [0, 0])
+        r[1] += 1
         if rc == 0:
+            r[0] += 1
             res.nontrivial.add(hashlib.sha1(steps + log).hexdigest())
+    res.extra.setdefault('acceptance_rates', {}).update({k: '%d/%d' % (a, t) for k, (a, t) in sorted(rates.items())})
+    for k, (a, t) in sorted(rates.items()):
+        if t >= 25 and a == 0:
+            res.tie_errors.append('report lane: none of %d executions of robsd-%s was accepted' % (t, k))
 
 
-D18_SIG = 'config-builddir-reentry'
+def lane_html(ctx, impl, work, res, rng, n):
+    """robsd-regress-html (regress-html.c is an anchor file of the property) on generated invocation trees (harness/c14.py) whose
+    step files and logs are mutated at byte level"""
+    import c14, c14_fixture as fx
+    binary = os.path.join(impl, 'robsd-regress-html')
+    cases = []
+    for i in range(max(12, n // 6)):
+        c = c14.gen_case(rng, rng.choice(['plain', 'plain', 'dup', 'error', 'special', 'tie']))
+        hit = 0
+        for a in c['arches']:
+            for e in a['entries']:
+                if e['kind'] != 'dir':
+                    continue
+                if e.get('step') is not None and rng.random() < 0.35:
+                    e['step'] = mutate(rng, bytes.fromhex(e['step']), rng.choice([1, 2, 4])).hex()
+                    hit += 1
+                e['files'] = [[nm, (mutate(rng, bytes.fromhex(ct), rng.choice([1, 3])).hex() if rng.random() < 0.2 else ct)] for nm, ct in e.get('files', [])]
+        c['mutated_step_files'] = hit
+        cases.append(c)
+    env = dict(os.environ)
+
+    def one(ic):
+        i, c = ic
+        root = os.path.join(work, 'h%d' % i)
+        os.makedirs(root)
+        try:
+            rc, err, outdir = fx.run_impl(binary, root, c, timeout=TIME_LIMIT, env=env)
+            nfiles = sum(len(fs) for _, _, fs in os.walk(outdir))
+            return rc, err, nfiles
+        finally:
+            shutil.rmtree(root, ignore_errors=True)
+    with ThreadPoolExecutor(8) as ex:
+        obs = list(ex.map(one, enumerate(cases)))
+    acc = 0
+    for c, (rc, err, nfiles) in zip(cases, obs):
+        # the result of robsd-regress-html is the output directory, its standard output is always empty
+        judge(res, 'robsd-regress-html', dict(c, lane='html'), rc, b'', err)
+        if rc == 0:
+            acc += 1
+            res.nontrivial.add(hashlib.sha1(json.dumps(c, sort_keys=True).encode()).hexdigest())
+    res.extra.setdefault('acceptance_rates', {})['regress-html'] = '%d/%d' % (acc, len(cases))
+    if acc == 0:
+        res.tie_errors.append('html lane: none of %d executions of robsd-regress-html was accepted' % len(cases))
+
+
+D21_SIG = 'config-builddir-reentry'
 STACK = re.compile(rb'AddressSanitizer: stack-overflow')
 
 
@@ -278,15 +534,11 @@ def lane_reentry(ctx, impl, work, res, rng, n):
     when ${builddir} is needed while it is being computed) against what the sanitizer build does"""
     import conf_common as cc, conf_gen
     world = cc.World(ctx, impl)
-    drv = ctx.build_driver('cf', withz=True)
+    drv = build_driver(ctx, 'cf', withz=True)
     g = conf_gen.Gen(rng)
-    W = [('robsd', b'robsddir "@R@/root/${cvs-root}"\ndestdir "@R@/root"\ncvs-root "${builddir}"\n', b'${builddir}\n', 'config'),
-         ('robsd', b'robsddir "@R@/root/${cvs-root}"\ndestdir "@R@/root"\ncvs-root "${builddir}"\n', b'x\n', 'config'),
-         ('robsd', b'robsddir "@R@/root/${cvs-root}"\ncvs-root "${builddir}"\ndestdir "${builddir}"\n', b'x\n', 'config'),
-         ('robsd', b'robsddir "@R@/root/${cvs-root}"\ncvs-root "${builddir}"\ndestdir "${builddir}"\n', b'', 'list'),
-         ('canvas', b'canvas-name "x"\ncanvas-dir "@R@/root/${hook}"\nhook { "${builddir}" }\nstep "a" command { "true" }\n', b'${tmp-dir}\n', 'config'),
-         ('robsd', b'robsddir "@R@/rroot"\ndestdir "@R@/root"\ncvs-root "${builddir}"\n', b'${builddir} ${cvs-root} ${tmp-dir}\n', 'config')]
-    cases = [{'mode': m, 'kind': 'witness', 'text': t.hex(), 'vars': [], 'execdir': None, 'stdin': s.hex(), 'which': w, 'lane': 'reentry'} for m, t, s, w in W]
+    cases = [dict(c, lane='reentry') for c in load_corpus() if c['lane'] == 'reentry']
+    if not cases:
+        res.tie_errors.append('corpus/C12 holds no builddir re-entry witness (D21)')
     for _ in range(max(24, n // 8)):
         mode = rng.choice(cc.MODES)
         ents, st = g.entries(mode, popt=rng.choice([0.1, 0.35]))
@@ -312,27 +564,31 @@ def lane_reentry(ctx, impl, work, res, rng, n):
         mf = a.split()
         trap = len(mf) > 2 and mf[2] == '1'
         died = bool(STACK.search(err)) or rc < 0 or rc > 128
-        if died and not trap and (STACK.search(err) or rc in (-11, 139)):
+        stack = bool(STACK.search(err)) or rc in (-11, 139)
+        if rc in (-998, -999):
+            judge(res, 'robsd-%s reentry' % c['which'], c, rc, out, err)
+            continue
+        if died and not trap and stack:
             # the model (with the body the translator found in the source) does not flag the trap but the implementation recurses
-            res.oracle_failures.append({'case': c, 'signature': D18_SIG, 'lane': 'reentry',
+            res.oracle_failures.append({'case': c, 'signature': D21_SIG, 'lane': 'reentry',
                                         'what': 'robsd-%s dies of stack exhaustion where the model exits %s' % (c['which'], mf[0])})
             res.evaluations += 1
             res.count('reentry %s %s: model exit %s, impl dies' % (c['which'], c['kind'], mf[0]))
             continue
         res.evaluations += 1
         res.count('reentry %s %s: model %s, impl %s' % (c['which'], c['kind'], 'trap' if trap else 'exit ' + mf[0], 'dies' if died else 'exit %s' % rc))
-        if trap and died and not (STACK.search(err) or rc in (-11, 139)):
+        if trap and died and not stack:
             # another trap site than the unbounded recursion (SIGILL of __builtin_trap, SIGABRT of an assert)
             judge(res, 'robsd-%s reentry' % c['which'], c, rc, out, err)
             res.evaluations -= 1
         elif trap and died:
-            res.oracle_failures.append({'case': c, 'signature': D18_SIG, 'lane': 'reentry',
+            res.oracle_failures.append({'case': c, 'signature': D21_SIG, 'lane': 'reentry',
                                         'what': 'robsd-%s dies of stack exhaustion: ${builddir} needed while ${builddir} is being computed' % c['which']})
         elif trap and not died:
             res.tie_errors.append('the model flags a trap (config_default_build_dir re-entered) where robsd-%s exits %s: %r'
                                   % (c['which'], rc, bytes.fromhex(c['text'])[:120]))
         else:
-            ok = judge(res, 'robsd-%s reentry' % c['which'], c, rc, out, err, stdout_on_reject_ok=(c['which'] == 'list'))
+            ok = judge(res, 'robsd-%s reentry' % c['which'], c, rc, out, err)
             res.evaluations -= 1
             if ok and c['which'] == 'config' and (mf[0] != str(rc) or mf[1] != common.hexs(out)):
                 res.disagreements.append({'case': c, 'model': a[:200], 'impl': ('%d %s' % (rc, common.hexs(out)))[:200]})
@@ -342,7 +598,99 @@ def lane_reentry(ctx, impl, work, res, rng, n):
             res.nontrivial.add(hashlib.sha1(bytes.fromhex(c['text']) + bytes.fromhex(c['stdin'])).hexdigest())
 
 
-LANES = [lane_step, lane_regress, lane_config, lane_interp, lane_report, lane_reentry]
+# ---- fan-out -------------------------------------------------------------------------------------------------------------
+def fanout_inputs(case, root, impl, work, idx):
+    """a fan-out case -> (argv, stdin, expected stdout or None).  via = argv: -v a=(${b})^F ...; conf: string variables of
+    robsd.conf referring to each other; step: fields of a step file referring to each other (robsd-step -R)"""
+    F, levels, leaf = case['F'], case['levels'], bytes.fromhex(case['leaf'])
+    ref = lambda nme: b'${' + nme + b'}'
+    expansions = F ** levels
+    expected = (leaf * expansions + b'\n') if expansions * max(1, len(leaf)) <= 40 * 10 ** 6 else None
+    if case['via'] == 'argv':
+        names = [b'a', b'b', b'c'][:levels]
+        conf = os.path.join(work, 'fan%d.conf' % idx)
+        open(conf, 'w').write('canvas-name "t"\ncanvas-dir "%s"\nstep "s" command { "true" }\n' % root)
+        argv = [os.path.join(impl, 'robsd-config'), '-m', 'canvas', '-C', conf]
+        for i, nme in enumerate(names[:-1]):
+            argv += ['-v', nme + b'=' + ref(names[i + 1]) * F]
+        argv += ['-v', names[-1] + b'=' + leaf, '-']
+        return argv, ref(names[0]) * F + b'\n', expected, [conf]
+    if case['via'] == 'conf':
+        names = [b'cvs-root', b'distrib-host', b'distrib-path'][:levels]
+        conf = os.path.join(work, 'fan%d.conf' % idx)
+        text = b'robsddir "%s"\ndestdir "%s"\n' % (root.encode(), root.encode())
+        for i, nme in enumerate(names[:-1]):
+            text += nme + b' "' + ref(names[i + 1]) * F + b'"\n'
+        text += names[-1] + b' "' + leaf + b'"\n'
+        open(conf, 'wb').write(text)
+        return [os.path.join(impl, 'robsd-config'), '-m', 'robsd', '-C', conf, '-'], ref(names[0]) * F + b'\n', expected, [conf]
+    names = [b'name', b'log', b'user'][:levels]
+    vals = {}
+    for i, nme in enumerate(names[:-1]):
+        vals[nme] = ref(names[i + 1]) * F
+    vals[names[-1]] = leaf
+    p = os.path.join(work, 'fan%d.csv' % idx)
+    open(p, 'wb').write(b'step,name,exit,duration,delta,log,user,time,skip\n1,%s,0,5,0,%s,%s,1700000000,0\n'
+                        % (vals.get(b'name', b'n'), vals.get(b'log', b''), vals.get(b'user', b'root')))
+    return [os.path.join(impl, 'robsd-step'), '-R', '-f', p, '-i', '1'], ref(names[0]) * F + b'\n', expected, [p]
+
+
+def lane_fanout(ctx, impl_asan, work, res, rng, n):
+    """expansion blow-up: the depth limit allows template -> value -> value -> leaf; with F references per value the result
+    holds F^3 copies of the leaf (Interp/InterpCost.v: interp_output_bound, fanout_exact).  Small instances must be exact and
+    prompt; an instance of >= FANOUT_MIN expansions that does not finish within the limit is the recorded finding
+    `interpolation-fanout-not-prompt`, a smaller one that does not finish is an unexplained hang."""
+    impl = ctx.build_impl()                          # plain build: ASan cannot run under RLIMIT_AS
+    root = config_world(work, 'froot')
+    cases = [dict(c) for c in load_corpus() if c['lane'] == 'fanout']
+    if not any(c['F'] ** c['levels'] >= FANOUT_MIN for c in cases):
+        res.tie_errors.append('corpus/C12 holds no fan-out witness of at least %d expansions' % FANOUT_MIN)
+    for _ in range(max(10, n // 25)):
+        levels = rng.choice([1, 2, 3, 3])
+        leaf = rng.choice([b'x', b'x', b'leaf', b'', b'y' * 50])
+        emax = 200000 // max(1, len(leaf))
+        F = rng.randint(2, max(2, int(emax ** (1.0 / levels))))
+        if levels == 1 and F > 4000:
+            F = 4000
+        via = rng.choice(['argv', 'conf', 'step'])
+        if via in ('step', 'conf') and leaf == b'':
+            leaf = b'r'                          # an empty string is rejected by the configuration grammar; step fields likewise
+        cases.append({'lane': 'fanout', 'via': via, 'F': F, 'levels': levels, 'leaf': leaf.hex(), 'kind': 'generated'})
+
+    def one(ic):
+        i, c = ic
+        argv, stdin, expected, files = fanout_inputs(c, root, impl, work, i)
+        r = execp(argv, stdin=stdin, env=dict(os.environ, EXECDIR=impl), mem=1 << 30)
+        for f in files:
+            os.unlink(f)
+        return r, expected
+    with ThreadPoolExecutor(8) as ex:
+        obs = list(ex.map(one, enumerate(cases)))
+    for c, ((rc, out, err), expected) in zip(cases, obs):
+        e = c['F'] ** c['levels']
+        res.evaluations += 1
+        bucket = '>= 1e7' if e >= FANOUT_MIN else ('>= 1e5' if e >= 10 ** 5 else '< 1e5')
+        res.count('fan-out via %s, %s expansions: %s' % (c['via'], bucket, 'time limit' if rc in (-998, -999) else 'exit %s' % rc))
+        if rc in (-998, -999) and e >= FANOUT_MIN:
+            res.oracle_failures.append({'case': c, 'signature': FANOUT_SIG, 'lane': 'fanout',
+                                        'what': '%d references per value on %d levels = %d expansions: not finished after %d s (input: %d bytes)'
+                                                % (c['F'], c['levels'], e, TIME_LIMIT, 4 * c['F'] * c['levels'] + len(c['leaf']) // 2)})
+            continue
+        if not judge(res, 'fan-out via %s' % c['via'], c, rc, out, err):
+            res.evaluations -= 1
+            continue
+        res.evaluations -= 1
+        if rc == 0 and expected is not None and out != expected:
+            res.oracle_failures.append({'case': c, 'signature': 'fanout-result', 'lane': 'fanout',
+                                        'what': 'result is not the leaf %d times: %d bytes, expected %d' % (e, len(out), len(expected))})
+        if rc == 1 and b'Cannot allocate memory' not in err:
+            res.oracle_failures.append({'case': c, 'signature': 'fanout-rejected', 'lane': 'fanout',
+                                        'what': 'a well-formed fan-out within the depth limit is rejected: %r' % err[-200:]})
+        if rc == 0 and e >= 1000:
+            res.nontrivial.add('fanout-%s-%d-%d-%s' % (c['via'], c['F'], c['levels'], c['leaf'][:16]))
+
+
+LANES = [lane_seeds, lane_step, lane_regress, lane_config, lane_interp, lane_report, lane_html, lane_reentry, lane_fanout]
 
 
 def run_all(ctx, res, n):
@@ -351,14 +699,20 @@ def run_all(ctx, res, n):
     os.environ.setdefault('UBSAN_OPTIONS', 'print_stacktrace=0')
     work = ctx.mkscratch('c12')
     for lane in LANES:
+        before = res.evaluations
         lane(ctx, impl, work, res, ctx.rng, n)
+        if res.evaluations == before:
+            res.tie_errors.append('%s produced no verdict' % lane.__name__)
 
 
 def run(ctx, n=None):
     res = common.Result()
-    res.rule = ('clang ASan+UBSan build of all helpers; inputs = grammar-derived seeds of the five configuration grammars, step files, regress logs, templates, '
-                'report build directories, each with 0-6 byte-level mutations (NUL, quotes, braces, $, commas, deletions, repeated segments up to 70 kB tokens, huge integers, '
-                'deep nesting, truncation) plus raw random bytes; 5 s limit per execution; non-trivial = the mutated input was still accepted (exit 0); distinct by content hash')
+    res.rule = ('clang ASan+UBSan build of robsd-config, robsd-step, robsd-ls, robsd-hook, robsd-report, robsd-regress-log, robsd-regress-html; inputs = grammar-derived seeds '
+                'of the five configuration grammars (each asserted to be accepted by every tool before mutation), step files, regress logs, templates, '
+                'report build directories, regress-html invocation trees, each with 0-6 byte-level mutations (NUL, quotes, braces, $, commas, deletions, repeated segments '
+                'up to 70 kB tokens, huge integers, deep nesting, truncation) plus raw random bytes; long values referenced several times; fan-out of references on up to '
+                'three levels (plain build under a 1 GiB address-space limit); one 5 s limit per execution in every lane; non-trivial = the mutated input was still accepted '
+                '(exit 0); distinct by content hash')
     res.assumptions = TRUSTED[:2]
     n = n or ctx.budget(500, 12000)
     run_all(ctx, res, n)
@@ -373,9 +727,84 @@ def extended_search(ctx, res, proof):
 
 def replay(ctx, rep):
     case = rep.get('case') or {}
-    if case.get('lane') != 'reentry':
-        print(json.dumps(rep, indent=1)[:3000])
-        return 1
+    lane = case.get('lane')
+    res = common.Result()
+    if lane == 'fanout':
+        impl = ctx.build_impl()
+        work = ctx.mkscratch('c12r')
+        root = config_world(work, 'froot')
+        argv, stdin, expected, files = fanout_inputs(case, root, impl, work, 0)
+        import time
+        t = time.time()
+        rc, out, err = execp(argv, stdin=stdin, env=dict(os.environ, EXECDIR=impl), mem=1 << 30)
+        print('fan-out via %s: %d references per value, %d levels, leaf of %d bytes; argv %d bytes, template %d bytes'
+              % (case['via'], case['F'], case['levels'], len(case['leaf']) // 2, sum(len(a) for a in argv), len(stdin)))
+        print('exit %s after %.1f s (limit %d s), %d bytes of output, stderr %r' % ('TIME LIMIT' if rc == -998 else rc, time.time() - t, TIME_LIMIT, len(out), err[-200:]))
+        bad = rc not in (0, 1) or (rc == 0 and expected is not None and out != expected)
+        print('VIOLATION reproduced' if bad else 'no violation')
+        return 1 if bad else 0
+    if lane != 'reentry':
+        # every other lane: the same input on a sanitizer build of the tree as it is now, judged by the same oracle
+        impl = ctx.build_impl('-fsanitize=address,undefined -fno-sanitize-recover=all -g -O1', cc='clang', ldflags='-fsanitize=address,undefined')
+        os.environ.setdefault('ASAN_OPTIONS', 'detect_leaks=0:abort_on_error=0')
+        os.environ.setdefault('UBSAN_OPTIONS', 'print_stacktrace=0')
+        work = ctx.mkscratch('c12r')
+        env = dict(os.environ, EXECDIR=impl)
+        ok_codes = (0, 1)
+        if lane == 'step':
+            p = os.path.join(work, 's.csv')
+            open(p, 'wb').write(bytes.fromhex(case['file']))
+            what = 'robsd-step -R -f <file> %s' % ' '.join(case['sel'])
+            rc, out, err = execp([os.path.join(impl, 'robsd-step'), '-R', '-f', p] + case['sel'], stdin=bytes.fromhex(case['template']))
+        elif lane in ('config', 'list', 'ls', 'hook'):
+            root = config_world(work)
+            make_hookprobe(root)
+            p = os.path.join(work, 'c.conf')
+            # generated cases hold the scratch root of their run as @R@; the hook probe path is re-created under the same name
+            open(p, 'wb').write(bytes.fromhex(case['config']).replace(b'@R@', root.encode()))
+            what = 'robsd-%s -m %s' % (lane, case['mode'])
+            rc, out, err = run_tool(impl, lane, case['mode'], p, bytes.fromhex(case['template']), env)
+        elif lane == 'interp':
+            root = os.path.join(work, 'iroot')
+            os.makedirs(root)
+            conf = os.path.join(work, 'i.conf')
+            open(conf, 'w').write('canvas-name "t"\ncanvas-dir "%s"\nstep "s" command { "true" }\n' % root)
+            what = 'robsd-config -m canvas -v ... -'
+            rc, out, err = c09.run_cmd(impl, conf, case, timeout=TIME_LIMIT)
+        elif lane == 'report':
+            root = os.path.join(work, 'r')
+            os.makedirs(root)
+            conf, bd = report_dir(root, case['mode'], seeds_config(root, case['mode']), bytes.fromhex(case['steps']), bytes.fromhex(case['log']),
+                                  bytes.fromhex(case['comment']), bytes.fromhex(case['tags']))
+            what = 'robsd-report -m %s' % case['mode']
+            rc, out, err = execp([os.path.join(impl, 'robsd-report'), '-m', case['mode'], '-C', conf, bd], env=env)
+        elif lane == 'regress':
+            p = os.path.join(work, 'log0')
+            open(p, 'wb').write(bytes.fromhex(case['files'][0]))
+            what = 'robsd-regress-log'
+            rc, out, err = execp([os.path.join(impl, 'robsd-regress-log'), c13.flag_args(case['flags'], case['doprint']), p])
+            ok_codes = (0, 1)
+            if rc == 1 and not err.strip():
+                err = b'(exit 1 = nothing extracted)'
+        elif lane == 'html':
+            import c14_fixture as fx
+            root = os.path.join(work, 'h')
+            os.makedirs(root)
+            what = 'robsd-regress-html'
+            rc, err, _ = fx.run_impl(os.path.join(impl, 'robsd-regress-html'), root, case, timeout=TIME_LIMIT, env=dict(os.environ))
+            out = b''
+        else:
+            print(json.dumps(rep, indent=1)[:3000])
+            return 1
+        judge(res, what, case, rc, out, err, ok_codes)
+        print('%s: exit %s, %d bytes on stdout, stderr: %s' % (what, 'TIME LIMIT' if rc in (-998, -999) else rc, len(out), err[-700:].decode('latin1')))
+        for f in res.oracle_failures:
+            print('oracle: %s - %s' % (f['signature'], f['what'][:300]))
+        if lane == 'report' and case['mode'] == 'robsd-regress' and rc == 1 and not err.strip() and names_missing_log(bytes.fromhex(case['steps'])):
+            print('oracle: %s' % MISSING_LOG_SIG)
+            return 1
+        print('VIOLATION reproduced' if res.oracle_failures else 'no violation')
+        return 1 if res.oracle_failures else 0
     # the reentry lane replays: same configuration, same template, sanitizer build of the tree as it is now
     ctx.regen(TRANSLATORS)
     impl = ctx.build_impl('-fsanitize=address,undefined -fno-sanitize-recover=all -g -O1', cc='clang', ldflags='-fsanitize=address,undefined')
